@@ -60,6 +60,9 @@ func (e *env) attestationCases() []string {
 	scens := []scen{
 		{"bridge-token-existing", 0, func(sdk.Context) int64 { return 0 }, btc(e.toks[0].Contract)},
 		{"bridge-token-existing-2", 0, func(sdk.Context) int64 { return 2 }, btc(e.toks[2].Contract)},
+		{"bridge-token-fx-wrong-decimals", 3, func(sdk.Context) int64 { return 0 }, func(sdk.Context) crosschaintypes.ExternalClaim {
+			return &crosschaintypes.MsgBridgeTokenClaim{TokenContract: lib.EthKey(c.Seed, "fx-bridge-token", 0).Hex().Hex(), Name: "Function X", Symbol: "FX", Decimals: 6}
+		}},
 		{"bridge-token-new", 0, func(sdk.Context) int64 { return tokenID(newContract) }, btc(newContract)},
 		{"oracle-set-unknown", 1, func(sdk.Context) int64 { return 7777 }, osc(func(sdk.Context) uint64 { return 7777 })},
 		{"oracle-set-zero", 1, func(sdk.Context) int64 { return 0 }, osc(func(sdk.Context) uint64 { return 0 })},
@@ -148,7 +151,7 @@ func (e *env) attestationCases() []string {
 			k.SetLastEventNonceByOracle(B2, last.Oracle.Acc(), nonce)
 			k.SetLastEventBlockHeightByOracle(B2, last.Oracle.Acc(), claim.GetBlockHeight())
 			if diff := lib.DiffDumps(c.DumpAll(B2), post); len(diff) > 0 {
-				e.rep.Fail(lib.Failure{Kind: "monitor", Sig: "C18:attestation:" + s.name,
+				e.failSig(lib.Failure{Kind: "monitor", Sig: "C18:attestation:" + s.name,
 					What:   "state after an observed event whose handler failed differs from 'event marked observed'",
 					Replay: map[string]interface{}{"scenario": s.name, "diff(-designated,+real)": diff}})
 			}
